@@ -24,19 +24,19 @@ def enumFrom {α} : Nat → List α → List (Nat × α)
   | _, [] => []
   | i, x :: r => (i, x) :: enumFrom (i + 1) r
 
-def traceVar (w : World) (v : VarId) (env : Env) (k : Kont) : List Ev :=
+def traceVar (w : World) (condPos : Bool) (v : VarId) (env : Env) (k : Kont) : List Ev :=
   match env.lookup (.var v) with
-  | some x => k env x (truthy x)
+  | some x => k env x (boundFlag condPos x)
   | none => (enumFrom 0 (w.dom v)).flatMap fun p => Ev.pull v p.1 :: k ((.var v, p.2) :: env) p.2 true
 
 def readEvent (x : Val) (n : AttrName) : List Ev :=
   match x with | .obj o => [Ev.read o n] | _ => []
 
 def traceTerm (w : World) (condPos : Bool) : Term → Env → Kont → List Ev
-  | .var v, env, k => traceVar w v env k
+  | .var v, env, k => traceVar w condPos v env k
   | .lit id x, env, k =>
     match env.lookup (.lit id) with
-    | some y => k env y (truthy y)
+    | some y => k env y (boundFlag condPos y)
     | none => k ((.lit id, x) :: env) x true
   | .attr t n, env, k =>
     traceTerm w false t env fun env' x _ =>
